@@ -4,6 +4,7 @@ package race
 
 import (
 	"bytes"
+	"crypto/rand"
 	"encoding/hex"
 	"encoding/json"
 	"fmt"
@@ -11,6 +12,7 @@ import (
 	"path/filepath"
 	"runtime"
 	"sync"
+	"sync/atomic"
 	"testing"
 
 	"github.com/bytemare/secp256k1"
@@ -208,10 +210,24 @@ func (ev *env) run(c call) []byte {
 	case "Order":
 		return secp256k1.Order()
 	case "Random":
-		if s.Random().IsZero() {
-			return []byte("zero")
+		// every goroutine has its own deterministic entropy stream (goroutineEntropy): the result must be the first acceptable
+		// block of the bytes THIS call was given, whatever other goroutines and the collector do meanwhile
+		gid := curGID()
+		growStack(24) // a stack that grew before and is almost unused now may be moved by the collector during the call
+		entropy.begin(gid)
+		s.Random()
+		given := entropy.end(gid)
+		var want []byte
+		for off := 0; off+32 <= len(given); off += 32 {
+			if v := new(bigInt).SetBytes(given[off : off+32]); v.Sign() != 0 && v.Cmp(ref.N) != 0 {
+				want = ref.Bytes32(v.Mod(v, ref.N))
+				break
+			}
 		}
-		return []byte("nonzero")
+		if got := s.Encode(); want == nil || !bytes.Equal(got, want) {
+			return []byte(fmt.Sprintf("Random returned %x, the first acceptable block of the %d bytes it was given is %x", got, len(given), want))
+		}
+		return []byte("first acceptable block")
 	}
 	panic("unknown call " + c.Fn)
 }
@@ -219,6 +235,9 @@ func (ev *env) run(c call) []byte {
 var currentCasePath string
 
 func runC16(c caseC16, o *gen.Obs) error {
+	savedEntropy := rand.Reader
+	rand.Reader = entropy // (one case at a time: the source is process-wide)
+	defer func() { rand.Reader = savedEntropy }()
 	if currentCasePath != "" {
 		// record the case before running it: a detected race terminates the process (exit code 66)
 		raw, _ := json.Marshal(map[string]any{"property": "C16", "check": "C16/concurrent", "error": "data race reported by the Go race detector", "class": "data-race", "case": c})
@@ -446,6 +465,103 @@ func seq(n int) []int {
 		out[i] = i
 	}
 	return out
+}
+
+// goroutineEntropy is the process's entropy source during C16: a deterministic stream per calling goroutine (blocks derived from
+// the goroutine id and a counter, every fifth one zero or n), filled into the caller's buffer by ANOTHER goroutine - an entropy
+// daemon client - with a garbage collection now and then while the caller is parked in Read.
+type goroutineEntropy struct {
+	mu      sync.Mutex
+	streams map[uint64]*gStream
+	reads   atomic.Uint64
+}
+
+type gStream struct {
+	next  uint64
+	queue []byte
+	given []byte
+}
+
+var entropy = &goroutineEntropy{streams: map[uint64]*gStream{}}
+
+func curGID() uint64 {
+	var buf [64]byte
+	b := buf[:runtime.Stack(buf[:], false)]
+	b = b[len("goroutine "):]
+	var id uint64
+	for _, c := range b {
+		if c < '0' || c > '9' {
+			break
+		}
+		id = id*10 + uint64(c-'0')
+	}
+	return id
+}
+
+func (e *goroutineEntropy) stream(gid uint64) *gStream {
+	e.mu.Lock()
+	defer e.mu.Unlock()
+	st := e.streams[gid]
+	if st == nil {
+		st = &gStream{}
+		e.streams[gid] = st
+	}
+	return st
+}
+
+func (e *goroutineEntropy) begin(gid uint64) { e.stream(gid).given = nil }
+
+func (e *goroutineEntropy) end(gid uint64) []byte {
+	st := e.stream(gid)
+	g := st.given
+	e.mu.Lock()
+	delete(e.streams, gid)
+	e.mu.Unlock()
+	return g
+}
+
+func (e *goroutineEntropy) Read(p []byte) (int, error) {
+	gid := curGID()
+	st := e.stream(gid) // only the goroutine gid (and the filler it waits for) touches st
+	for len(st.queue) < len(p) {
+		st.next++
+		var blk [32]byte
+		switch {
+		case st.next%5 == 0 && st.next%10 != 0:
+			copy(blk[:], ref.Bytes32(ref.N))
+		case st.next%10 == 0:
+		default:
+			for i := range blk {
+				blk[i] = byte(gid*131 + st.next*31 + uint64(i)*7)
+			}
+			blk[0] &= 0x7f
+			blk[31] |= 1
+		}
+		st.queue = append(st.queue, blk[:]...)
+	}
+	done := make(chan struct{})
+	go func() { // the buffer is filled by another goroutine
+		runtime.Gosched()
+		copy(p, st.queue[:len(p)])
+		close(done)
+	}()
+	if e.reads.Add(1)%16 == 1 {
+		runtime.GC()
+	}
+	<-done
+	st.given = append(st.given, st.queue[:len(p)]...)
+	st.queue = st.queue[len(p):]
+	return len(p), nil
+}
+
+//go:noinline
+func growStack(n int) byte {
+	var pad [2048]byte
+	pad[n] = byte(n)
+	if n == 0 {
+		return pad[0]
+	}
+	return growStack(n-1) + pad[n]
 }
 
 func TestC16Concurrent(t *testing.T) {
